@@ -10,6 +10,7 @@ import Dlismodel.Model.ParseEflr
 import Dlismodel.Model.Iflr
 import Dlismodel.Model.Api
 import Dlismodel.Model.Output
+import Dlismodel.Model.Index
 namespace Dlis
 
 def hexDigit (n : Nat) : Char := if n < 10 then Char.ofNat (48 + n) else Char.ofNat (87 + n)
@@ -361,6 +362,15 @@ def handle (ws : List String) : String :=
       let o := runOutput cap sul vrs
       s!"ok {o.total} " ++ ",".intercalate (o.writes.map fun w => toString w.length)
     | _, _, _ => "bad"
+  -- index statistics of (scaled) integer index values
+  | ["index", vals] =>
+    match (if vals == "-" then some [] else (vals.splitOn ",").mapM String.toInt?) with
+    | some xs =>
+      let a := indexAttrs xs
+      let sp := match a.spacing with | .absent => "none" | .exact d => s!"{2 * d}/2" | .median m => s!"{m}/2"
+      let dir := match a.direction with | none => "none" | some true => "inc" | some false => "dec"
+      s!"ok min={showOptInt a.imin} max={showOptInt a.imax} spacing={sp} direction={dir}"
+    | none => "bad"
   | "hist" :: n :: ops =>
     match n.toNat?, ops.mapM parseOp with
     | some n, some ops => "ok " ++ showWorld (run (World.init n) ops)
